@@ -430,6 +430,15 @@ class ProgramUnit(Scope):
         # Escalate to Scope's clone function
         obj = super().clone(**kwargs)
 
+        # Link the procedure types of statement functions to the rebuilt nodes,
+        # so that the clone does not depend on the lifetime of the original
+        if obj.spec:
+            for stmt_func in FindNodes(ir.StatementFunction).visit(obj.spec):
+                _type = obj.symbol_attrs.get(stmt_func.name)
+                if _type is not None and isinstance(_type.dtype, ProcedureType):
+                    proc_type = ProcedureType(name=stmt_func.name, procedure=stmt_func, is_function=True)
+                    obj.symbol_attrs[stmt_func.name] = _type.clone(dtype=proc_type)
+
         # Update contained routines with new parent scope
         # TODO: Convert ProgramUnit to an IR node(-like) object and make this
         #       work via `Transformer`
